@@ -43,6 +43,30 @@ class Violation(AssertionError):
         self.detail = detail
 
 
+def guarded(fn, case, ctx):
+    """``fn(case, ctx)``; an exception that escapes from the code under test (innermost frame inside the tree's
+    ``src``) at a place where the check expects the call to work is a violation of the check's oracle, reported as
+    such (sub-check ``unexpected-exception-in-library``) rather than as a harness error.  Exceptions raised by the
+    harness itself stay harness errors."""
+    import traceback
+    info = None
+    try:
+        return fn(case, ctx)
+    except (Violation, HarnessError, KeyboardInterrupt, SystemExit, MemoryError, GeneratorExit):
+        raise
+    except BaseException as exc:  # noqa
+        if type(exc).__module__.startswith("hypothesis"):
+            raise
+        frames = traceback.extract_tb(exc.__traceback__)
+        src = str(REPO / "src")
+        if not frames or not str(frames[-1].filename).startswith(src):
+            raise
+        last = frames[-1]
+        info = (type(exc).__name__, f"{pathlib.Path(last.filename).name}:{last.name}", str(exc)[:200])
+    raise Violation("unexpected-exception-in-library", {"exception": info[0], "where": info[1]},
+                    f"{info[0]} raised in {info[1]} where the check expects the call to work: {info[2]}")
+
+
 class _Guard:
     ok = True
     exc = None
@@ -259,7 +283,7 @@ class Ctx:
         @given(strategy)
         def test(case):
             try:
-                fn(case, self)
+                guarded(fn, case, self)
             except Violation as v:
                 holder["last"] = (jsonable(case), v)
                 raise
@@ -288,7 +312,7 @@ class Ctx:
     def direct(self, fn, case, label=None):
         """Run one fixed (not generated) sub-check; a Violation is recorded, not raised."""
         try:
-            fn(case, self)
+            guarded(fn, case, self)
         except Violation as v:
             self.violations.append({"subcheck": v.subcheck, "descriptor": v.descriptor,
                                     "detail": v.detail, "case": jsonable(case), "label": label})
@@ -301,7 +325,7 @@ class Ctx:
             if i % self.nshards != self.shard:
                 continue
             try:
-                fn(case, self)
+                guarded(fn, case, self)
             except Violation as v:
                 self.violations.append({"subcheck": v.subcheck, "descriptor": v.descriptor,
                                         "detail": v.detail, "case": jsonable(case), "label": label})
@@ -368,7 +392,7 @@ def run_replays(prop, mod, workroot):
     for f in files:
         data = json.loads(f.read_text())
         try:
-            mod.replay(data["case"], ctx)
+            guarded(mod.replay, data["case"], ctx)
         except Violation as v:
             out.append({"subcheck": v.subcheck, "descriptor": v.descriptor, "detail": v.detail,
                         "case": data["case"], "label": data.get("label"), "replay_file": str(f)})
@@ -388,7 +412,7 @@ def main(prop, tier, replay=None):
             ctx.in_replay = True
             data = json.loads(pathlib.Path(replay).read_text())
             try:
-                mod.replay(data["case"], ctx)
+                guarded(mod.replay, data["case"], ctx)
             except Violation as v:
                 print(f"replay: {v.subcheck}: {v.detail}")
                 print(f"VIOLATION property={prop} replay={replay}")
